@@ -8,6 +8,7 @@ import (
 	"strings"
 	"sync"
 
+	"github.com/transparency-dev/witness/verifmc/ref6962"
 	"github.com/transparency-dev/witness/verifmc/uni"
 )
 
@@ -16,6 +17,32 @@ type CPGen struct {
 	U  *uni.U
 	mu sync.Mutex
 	m  map[string]cpEntry
+	// odd: ground-truth branch of the "oddroot" shape (a tree no other
+	// branch shares a non-empty prefix with).
+	odd *uni.Branch
+}
+
+// OddRoot is the root hash the "oddroot" shape carries at size n: 32 bytes
+// that are the root of no tree the harness knows (in particular NOT the
+// empty-tree hash at size 0). A log can sign such a checkpoint; once the
+// witness holds it, only that very checkpoint is consistent with it.
+func OddRoot(n int) []byte {
+	h := sha256.Sum256([]byte(fmt.Sprintf("verif: odd root at size %d", n)))
+	return h[:]
+}
+
+// Odd returns the ground-truth branch of "oddroot" checkpoints.
+func (g *CPGen) Odd() *uni.Branch {
+	g.mu.Lock()
+	defer g.mu.Unlock()
+	if g.odd == nil {
+		var data [][]byte
+		for i := 0; i < g.U.N; i++ {
+			data = append(data, []byte(fmt.Sprintf("verif: odd leaf %d", i)))
+		}
+		g.odd = &uni.Branch{Name: "odd", Div: 0, Data: data, Tree: ref6962.NewTree(data)}
+	}
+	return g.odd
 }
 
 type cpEntry struct {
@@ -42,6 +69,7 @@ var Shapes = []string{"plain", "ext", "junk1", "otherlog", "stale-own-valid", "s
 //	stale-own-valid   carries an older valid cosignature/v1 + legacy signature of the witness
 //	stale-own-invalid carries a corrupted signature line under the witness's name/key hash
 //	dup-logsig        the log's signature line twice
+//	oddroot           a root hash that is the root of no tree (see OddRoot)
 //	namesake-future/-past/-legacy  an unverifiable line under the witness's key NAME (other key hash), cosignature-shaped with a far-future / ancient timestamp, or legacy-shaped
 func (g *CPGen) Get(l LogCfg, b *uni.Branch, n int, shape string) ([]byte, Meta) {
 	key := fmt.Sprintf("%s|%s|%s|%d|%s", l.Origin, KeyID(l.Key.Verif), b.Name, n, shape)
@@ -102,6 +130,9 @@ func (g *CPGen) Get(l LogCfg, b *uni.Branch, n int, shape string) ([]byte, Meta)
 		}
 		text = uni.Body(l.Origin, uint64(n), b.Root(n), "pad "+strings.Repeat("p", k-len(probe)))
 	}
+	if shape == "oddroot" {
+		text = uni.Body(l.Origin, uint64(n), OddRoot(n))
+	}
 	cp := u.Sign(text, l.Key.Signer)
 	if strings.HasPrefix(shape, "pad") {
 		var k int
@@ -111,7 +142,7 @@ func (g *CPGen) Get(l LogCfg, b *uni.Branch, n int, shape string) ([]byte, Meta)
 		}
 	}
 	switch {
-	case shape == "plain" || shape == "ext" || strings.HasPrefix(shape, "pad") || strings.HasPrefix(shape, "bigext") || strings.HasPrefix(shape, "sizepad") || shape == "looseb64":
+	case shape == "plain" || shape == "ext" || shape == "oddroot" || strings.HasPrefix(shape, "pad") || strings.HasPrefix(shape, "bigext") || strings.HasPrefix(shape, "sizepad") || shape == "looseb64":
 	case len(shape) > 4 && shape[:4] == "junk":
 		var j int
 		fmt.Sscanf(shape[4:], "%d", &j)
@@ -154,6 +185,9 @@ func (g *CPGen) Get(l LogCfg, b *uni.Branch, n int, shape string) ([]byte, Meta)
 		panic("unknown shape " + shape)
 	}
 	m := Meta{Origin: l.Origin, KeyName: KeyID(l.Key.Verif), Size: uint64(n), Root: b.Root(n), Text: text, Branch: b, Shape: shape}
+	if shape == "oddroot" {
+		m.Root, m.Branch = OddRoot(n), g.Odd()
+	}
 	g.mu.Lock()
 	g.m[key] = cpEntry{cp, m}
 	g.mu.Unlock()
@@ -305,6 +339,9 @@ func Alphabet(g *CPGen, l LogCfg, st MState, o AlphaOpts) []Req {
 				continue
 			}
 			for _, shape := range shapes {
+				if shape == "oddroot" && b != u.Main {
+					continue // one odd checkpoint per size
+				}
 				cp, meta := g.Get(l, b, n, shape)
 				for _, old := range olds {
 					rich := o.RichProof && shape == shapes[0] && (o.AllOlds || (st.Has && old == st.Size) || (!st.Has && old == 0))
